@@ -245,7 +245,7 @@ CHECKS = {
         'on the slices selected by the control values equals the controlled block matrix (C04_controlled_slice). Props.C04Rules: the _decompose_ patterns of the gate library multiplied out on the '
         'documented matrices for EVERY exponent, phase exponent and global shift (over any commutative ring with a lawful phase map; satisfied by C: NonVacuity/ComplexModel): PhasedX = Z**-p X Z**p, '
         'H**t = Y**1/4 X**t Y**-1/4 (and the exponent-1 pattern), PhasedXZ, CX**t = Y**-1/2 CZ**t Y**1/2, SWAP**t = CNOT CNOT**t(b,a) CNOT, the 8-gate ISWAP**t pattern, ZZ**t, XX**t, YY**t, FSim = XX YY CZ, '
-        'PhasedISWAP, CY**t, CCX**t = H CCZ**t H, the 19-gate CCZ**t pattern with its global phase, and the extraction of a controlled sub-gate's global shift as a Z power on the control for X, Z, CZ powers (C04_decompose_*, C04_controlled_shift_*); the decompose-rule stream checks that decompose_once yields exactly these patterns. T2: for generated '
+        'PhasedISWAP, CY**t, CCX**t = H CCZ**t H, the 19-gate CCZ**t pattern with its global phase, and the extraction of a controlled sub-gate global shift as a Z power on the control for X, Z, CZ powers (C04_decompose_*, C04_controlled_shift_*); the decompose-rule stream checks that decompose_once yields exactly these patterns. T2: for generated '
         'gates and wrapper compositions (tags, with_qubits, double inverse, CircuitOperation, ParallelGate, qutrit gates) the reported '
         'matrix, apply_unitary on permuted / non-adjacent axes of 1..6-axis tensors with spectator axes of dimension 2/3/5 (operation- and '
         'gate-level), act_on of the state-vector simulation state, decompose_once / decompose (product taken by the Lean interpreter), '
